@@ -287,7 +287,7 @@ func cmdCheck(args []string) {
 			}
 		}
 	}
-	SolveAll(all, SolveOpts{TimeoutMs: timeout, Dir: tmp, Seed: seed}, runtime.NumCPU())
+	SolveAll(all, SolveOpts{TimeoutMs: timeout, Dir: tmp, Seed: seed}, 2*runtime.NumCPU())
 
 	kf := readKnownFindings(filepath.Join(vd, "known_findings.txt"))
 	isKnown := func(name string) *knownFinding {
